@@ -2319,6 +2319,7 @@ pub enum Statement {
     /// in different enums. This can be refactored later once custom dialects
     /// are allowed to have custom Statements.
     CopyIntoSnowflake {
+        #[cfg_attr(feature = "visitor", visit(with = "visit_relation"))]
         into: ObjectName,
         from_stage: ObjectName,
         from_stage_alias: Option<Ident>,
@@ -6236,6 +6237,7 @@ impl fmt::Display for crate::ast::MysqlInsertPriority {
 pub enum CopySource {
     Table {
         /// The name of the table to copy from.
+        #[cfg_attr(feature = "visitor", visit(with = "visit_relation"))]
         table_name: ObjectName,
         /// A list of column names to copy. Empty list means that all columns
         /// are copied.
